@@ -51,6 +51,11 @@ def feat(rng, gtf=False):
         attrs.append(["Name", vals])
     if rng.random() < 0.3:
         attrs.append(["note", [rng.choice(["x", "y"])]])
+    if rng.random() < 0.12:
+        # attributes whose key is also the name of a column
+        attrs.append([rng.choice(["score", "source", "strand"]), [rng.choice(["0.9", "nr", "+"])]])
+    if rng.random() < 0.08:
+        cols[3] = cols[4] = None  # '.' coordinates
     extra = []
     return mf(cols, attrs, extra)
 
